@@ -67,8 +67,10 @@ class Cases:
         if per_cc:
             for cc in self.rng.sample(self.G.ccs, 4 * self.scale):
                 for tg in (0x8001, 0x8002, 0x00C4):
-                    r, ri = self.G.response(cc, enc=False, rc=self.rng.choice([0x101, 0x1C4, 0x922, 0x01E, 0x98E]), tag=tg)
+                    r, ri = self.G.response(cc, enc=False, rc=self.rng.choice([0x101, 0x1C4, 0x922, 0x01E, 0x98E, 0x000C0902, 0x80000101]), tag=tg)
                     out.append(("wf-response-failed", "R:%d:0" % cc, r, ri))
+                    # a failed response is header-only: it decodes without knowing its command
+                    out.append(("wf-response-failed-nocc", "R:-:0", r, ri))
         # tag TPM_ST_SESSIONS with a present but empty authorization area
         for cc in self.rng.sample(self.G.ccs, 6 * self.scale):
             c, ci = self.G.command(cc, nsessions=0, empty_area=True)
